@@ -1,9 +1,228 @@
 package main
 
 import (
+	"fmt"
 	"go/ast"
+	"go/token"
 	"strings"
 )
+
+// ---- round 4: decision conditions translated to Lean Bool functions (semantic Tie) ----
+
+// c09Param names a Go sub-expression (by its source text) that becomes a parameter of the Lean function:
+// kind "str" (Go string -> String), "chr" (a byte of a string -> Char), "flag" (a bool, a call result, or a
+// value only compared with nil: true = non-nil -> Bool), "nat" (something only used under len() -> Nat).
+type c09Param struct{ src, name, kind string }
+
+// net/http method constants (standard library, fixed by RFC 7231 / 5789)
+var c09HTTPMethods = map[string]string{
+	"http.MethodGet": "GET", "http.MethodHead": "HEAD", "http.MethodPost": "POST", "http.MethodPut": "PUT",
+	"http.MethodPatch": "PATCH", "http.MethodDelete": "DELETE", "http.MethodConnect": "CONNECT",
+	"http.MethodOptions": "OPTIONS", "http.MethodTrace": "TRACE",
+}
+
+// c09IfConds lists the conditions of all if statements of a function in source order (function literals included).
+func c09IfConds(fd *ast.FuncDecl) []ast.Expr {
+	var out []ast.Expr
+	ast.Inspect(fd.Body, func(n ast.Node) bool {
+		if x, ok := n.(*ast.IfStmt); ok {
+			out = append(out, x.Cond)
+		}
+		return true
+	})
+	return out
+}
+
+func c09TranslateCond(s *source, x ast.Expr, params []c09Param) (string, error) {
+	find := func(e ast.Expr) *c09Param {
+		src := s.src(e)
+		for i := range params {
+			if params[i].src == src {
+				return &params[i]
+			}
+		}
+		return nil
+	}
+	chr := func(e ast.Expr) (string, bool) {
+		switch y := e.(type) {
+		case *ast.Ident:
+			if y.Name == "colon" || y.Name == "slash" {
+				return "Char.ofNat " + y.Name + ".toNat", true
+			}
+		case *ast.BasicLit:
+			if y.Kind == token.CHAR {
+				return y.Value, true
+			}
+		}
+		return "", false
+	}
+	var tr func(x ast.Expr) (string, error)
+	tr = func(x ast.Expr) (string, error) {
+		if p := find(x); p != nil && p.kind == "flag" {
+			return p.name, nil
+		}
+		switch x := x.(type) {
+		case *ast.ParenExpr:
+			return tr(x.X)
+		case *ast.UnaryExpr:
+			if x.Op == token.NOT {
+				a, err := tr(x.X)
+				if err != nil {
+					return "", err
+				}
+				return "(!" + a + ")", nil
+			}
+		case *ast.BinaryExpr:
+			switch x.Op {
+			case token.LOR, token.LAND:
+				a, err := tr(x.X)
+				if err != nil {
+					return "", err
+				}
+				b, err := tr(x.Y)
+				if err != nil {
+					return "", err
+				}
+				return "(" + a + " " + x.Op.String() + " " + b + ")", nil
+			case token.EQL, token.NEQ, token.GTR:
+				neg := func(t string) string {
+					if x.Op == token.NEQ {
+						return "(!" + t + ")"
+					}
+					return t
+				}
+				// E == nil / E != nil
+				if id, ok := x.Y.(*ast.Ident); ok && id.Name == "nil" && x.Op != token.GTR {
+					if p := find(x.X); p != nil && p.kind == "flag" {
+						if x.Op == token.EQL {
+							return "(!" + p.name + ")", nil
+						}
+						return p.name, nil
+					}
+				}
+				// len(E) op k
+				if c, ok := x.X.(*ast.CallExpr); ok && s.src(c.Fun) == "len" && len(c.Args) == 1 {
+					if k, ok := x.Y.(*ast.BasicLit); ok && k.Kind == token.INT {
+						if p := find(c.Args[0]); p != nil && (p.kind == "str" || p.kind == "nat") {
+							n := p.name
+							if p.kind == "str" {
+								n += ".length"
+							}
+							if x.Op == token.GTR {
+								return "decide (" + n + " > " + k.Value + ")", nil
+							}
+							return neg("(" + n + " == " + k.Value + ")"), nil
+						}
+					}
+				}
+				if x.Op != token.GTR {
+					// E[0] op C   (first byte of a string against a byte constant)
+					if ix, ok := x.X.(*ast.IndexExpr); ok {
+						if k, ok := ix.Index.(*ast.BasicLit); ok && k.Value == "0" {
+							if p := find(ix.X); p != nil && p.kind == "str" {
+								if c, ok := chr(x.Y); ok {
+									return neg("(" + p.name + ".toList.head? == some (" + c + "))"), nil
+								}
+							}
+						}
+					}
+					// a byte parameter against a byte constant
+					if p := find(x.X); p != nil && p.kind == "chr" {
+						if c, ok := chr(x.Y); ok {
+							return neg("(" + p.name + " == " + c + ")"), nil
+						}
+					}
+					// string == string / string == http.MethodXxx
+					if p := find(x.X); p != nil && p.kind == "str" {
+						if q := find(x.Y); q != nil && q.kind == "str" {
+							return neg("(" + p.name + " == " + q.name + ")"), nil
+						}
+						if m, ok := c09HTTPMethods[s.src(x.Y)]; ok {
+							return neg("(" + p.name + " == " + leanString(m) + ")"), nil
+						}
+					}
+				}
+			}
+		}
+		return "", fmt.Errorf("cannot translate `%s`", s.src(x))
+	}
+	return tr(x)
+}
+
+// c09Cond emits `def <leanName> (params…) : Bool := <translated condition>`.
+func (e *emitter) c09Cond(s *source, rel, goName, leanName string, pick func(fd *ast.FuncDecl) ast.Expr, params []c09Param) {
+	sig := ""
+	for _, p := range params {
+		t := map[string]string{"str": "String", "chr": "Char", "flag": "Bool", "nat": "Nat"}[p.kind]
+		sig += fmt.Sprintf(" (%s : %s)", p.name, t)
+	}
+	fail := func(msg string) {
+		e.errors = append(e.errors, msg)
+		e.printf("/-- MISSING: %s -/\ndef %s%s : Bool := false\n\n", msg, leanName, sig)
+	}
+	fd := s.findFunc(rel, goName)
+	if fd == nil {
+		fail("function " + goName + " not found in " + rel)
+		return
+	}
+	x := pick(fd)
+	if x == nil {
+		fail("condition " + leanName + " not found in " + goName)
+		return
+	}
+	body, err := c09TranslateCond(s, x, params)
+	if err != nil {
+		fail(leanName + ": " + err.Error())
+		return
+	}
+	e.printf("/-- condition `%s` of `%s` in %s -/\ndef %s%s : Bool := %s\n\n", s.src(x), goName, rel, leanName, sig, body)
+}
+
+func c09If(n int) func(fd *ast.FuncDecl) ast.Expr {
+	return func(fd *ast.FuncDecl) ast.Expr {
+		cs := c09IfConds(fd)
+		if n < len(cs) {
+			return cs[n]
+		}
+		return nil
+	}
+}
+
+// the value of field `name` in the composite literal returned by the n-th return statement
+func c09RetField(n int, name string) func(fd *ast.FuncDecl) ast.Expr {
+	return func(fd *ast.FuncDecl) ast.Expr {
+		var rets []*ast.ReturnStmt
+		ast.Inspect(fd.Body, func(x ast.Node) bool {
+			if r, ok := x.(*ast.ReturnStmt); ok {
+				rets = append(rets, r)
+			}
+			return true
+		})
+		if n >= len(rets) || len(rets[n].Results) == 0 {
+			return nil
+		}
+		if name == "" {
+			return rets[n].Results[0]
+		}
+		cl, ok := rets[n].Results[0].(*ast.CompositeLit)
+		if !ok {
+			return nil
+		}
+		for _, el := range cl.Elts {
+			if kv, ok := el.(*ast.KeyValueExpr); ok && s0(kv.Key) == name {
+				return kv.Value
+			}
+		}
+		return nil
+	}
+}
+
+func s0(e ast.Expr) string {
+	if id, ok := e.(*ast.Ident); ok {
+		return id.Name
+	}
+	return ""
+}
 
 // c09Detail prints every statement of a (small) function, one normalised source line per simple statement
 // and structured headers for compound ones; function literals are expanded in place.  Used for the tiny
@@ -170,6 +389,48 @@ func init() {
 		e.c09DetailDef(s, srv, "WithPrefix", "withPrefixStmts")
 		e.c09DetailDef(s, srv, "WithNotFoundHandler", "withNotFoundStmts")
 		e.c09DetailDef(s, srv, "WithNotAllowedHandler", "withNotAllowedStmts")
+		// further functions of the public API (round 4)
+		e.c09DetailDef(s, srv, "Server.AddRoute", "serverAddRouteStmts")
+		e.c09DetailDef(s, srv, "WithJwt", "withJwtStmts")
+		e.c09DetailDef(s, srv, "WithJwtTransition", "withJwtTransitionStmts")
+		e.c09DetailDef(s, srv, "WithMaxBytes", "withMaxBytesStmts")
+		e.c09DetailDef(s, srv, "WithMiddlewares", "withMiddlewaresStmts")
+		e.c09DetailDef(s, srv, "WithMiddleware", "withMiddlewareStmts")
+		e.c09DetailDef(s, srv, "WithPriority", "withPriorityStmts")
+		e.c09DetailDef(s, srv, "WithSSE", "withSSEStmts")
+		e.c09DetailDef(s, srv, "WithTimeout", "withTimeoutStmts")
+		e.c09DetailDef(s, eng, "buildSSERoutes", "buildSSERoutesStmts")
+		e.c09DetailDef(s, eng, "engine.appendAuthHandler", "engineAppendAuthStmts")
+		e.c09DetailDef(s, eng, "convertMiddleware", "convertMiddlewareStmts")
+		// decision conditions, translated (semantic Tie)
+		str := func(n string) c09Param { return c09Param{n, n, "str"} }
+		e.c09Cond(s, tree, "Tree.Add", "condAddNotFromRoot", c09If(0), []c09Param{str("route")})
+		e.c09Cond(s, tree, "Tree.Add", "condAddEmptyItem", c09If(1), []c09Param{{"item", "item", "flag"}})
+		e.c09Cond(s, tree, "Tree.Search", "condSearchNotFromRoot", c09If(0), []c09Param{str("route")})
+		e.c09Cond(s, tree, "Tree.next", "condNextHere", c09If(0), []c09Param{str("route"), {"n.item", "nItem", "flag"}})
+		e.c09Cond(s, tree, "Tree.next", "condNextNotSlash", c09If(1), []c09Param{{"route[i]", "c", "chr"}})
+		e.c09Cond(s, tree, "Tree.next", "condNextSkip", c09If(2), []c09Param{{"r.found", "found", "flag"},
+			{"t.next(v, route[i+1:], result)", "rest", "flag"}})
+		e.c09Cond(s, tree, "Tree.next", "condNextNamed", c09If(3), []c09Param{{"r.named", "named", "flag"}})
+		e.c09Cond(s, tree, "Tree.next", "condNextLast", c09If(4), []c09Param{{"r.found", "found", "flag"}, {"v.item", "vItem", "flag"}})
+		e.c09Cond(s, tree, "node.getChildren", "condGetChildrenVar", c09If(0), []c09Param{str("route")})
+		e.c09Cond(s, tree, "add", "condAddEnd", c09If(0), []c09Param{str("route")})
+		e.c09Cond(s, tree, "add", "condAddDupHere", c09If(1), []c09Param{{"nd.item", "ndItem", "flag"}})
+		e.c09Cond(s, tree, "add", "condAddDupSlash", c09If(2), []c09Param{str("route")})
+		e.c09Cond(s, tree, "add", "condAddNotSlash", c09If(3), []c09Param{{"route[i]", "c", "chr"}})
+		e.c09Cond(s, tree, "add", "condAddDupChild", c09If(7), []c09Param{{"child.item", "childItem", "flag"}})
+		e.c09Cond(s, tree, "match", "condMatchNamed", c09If(0), []c09Param{str("pat")})
+		e.c09Cond(s, tree, "match", "condMatchLiteral", c09RetField(1, "found"), []c09Param{str("pat"), str("token")})
+		e.c09Cond(s, pat, "patRouter.Handle", "condHandleBadMethod", c09If(0), []c09Param{{"validMethod(method)", "valid", "flag"}})
+		e.c09Cond(s, pat, "patRouter.Handle", "condHandleBadPath", c09If(1), []c09Param{str("reqPath")})
+		e.c09Cond(s, pat, "patRouter.ServeHTTP", "condServeHasParams", c09If(2), []c09Param{{"result.Params", "nParams", "nat"}})
+		e.c09Cond(s, pat, "patRouter.ServeHTTP", "condServeNotFound", c09If(3), []c09Param{{"ok", "ok", "flag"}})
+		e.c09Cond(s, pat, "patRouter.ServeHTTP", "condServeCustomNA", c09If(4), []c09Param{{"pr.notAllowed", "notAllowed", "flag"}})
+		e.c09Cond(s, pat, "patRouter.handleNotFound", "condCustomNF", c09If(0), []c09Param{{"pr.notFound", "notFound", "flag"}})
+		e.c09Cond(s, pat, "patRouter.methodsAllowed", "condAllowedSkipOwn", c09If(0), []c09Param{str("treeMethod"), str("method")})
+		e.c09Cond(s, pat, "patRouter.methodsAllowed", "condAllowedAny", c09If(2), []c09Param{{"allows", "nAllows", "nat"}})
+		e.c09Cond(s, pat, "validMethod", "condValidMethod", c09RetField(0, ""), []c09Param{str("method")})
+		e.c09Cond(s, eng, "engine.notFoundHandler", "condEngineNFCustom", c09If(1), []c09Param{{"next", "next", "flag"}})
 		if fd := s.findFunc(pat, "validMethod"); fd != nil {
 			e.stringList("validMethodTests", "comparisons of `validMethod` in "+pat, c09Methods(s, fd))
 			e.c09DetailDef(s, pat, "validMethod", "validMethodStmts")
